@@ -245,6 +245,25 @@ func Run(c *core.Ctx, pool *gjs.Pool) {
 	if len(keys) > maxProgs {
 		keys = keys[:maxProgs]
 	}
+	// pinned programs (always executed): close of a channel with MIXED waiters - the queue
+	// entries of a blocked select next to plain blocked receivers, in both queue orders, with
+	// two and three waiters; main waits for a token from every waiter, so a waiter that is
+	// never resumed shows as a deadlock report the specification does not allow
+	for _, p := range mixedWaiterPrograms() {
+		k := p.key()
+		if _, ok := progs[k]; !ok {
+			progs[k] = p
+		}
+		have := false
+		for _, x := range keys {
+			if x == k {
+				have = true
+			}
+		}
+		if !have {
+			keys = append(keys, k)
+		}
+	}
 	list := make([]*Program, len(keys))
 	for i, k := range keys {
 		list[i] = progs[k]
@@ -439,4 +458,36 @@ func Run(c *core.Ctx, pool *gjs.Pool) {
 			c.Sample(map[string]any{"program": x.Prog, "script": x.Script, "end": x.End, "events": len(x.Events)})
 		}
 	}
+}
+
+// mixedWaiterPrograms: channel 1 (unbuffered) is closed by main while goroutines wait on it,
+// channel 2 (capacity 2 or 3) carries one token per resumed waiter back to main.
+func mixedWaiterPrograms() []*Program {
+	sel := Instr{Kind: "sel", Offers: []Offer{{Dir: "r", Chan: 1}, {Dir: "r", Chan: 1}}}
+	selD := Instr{Kind: "sel", Offers: []Offer{{Dir: "r", Chan: 1}, {Dir: "s", Chan: 1}}}
+	recv := Instr{Kind: "recv", Chan: 1}
+	token := Instr{Kind: "send", Chan: 2}
+	goI := func(ch int) Instr { return Instr{Kind: "go", Child: ch} }
+	yield := Instr{Kind: "yield"}
+	wait := Instr{Kind: "recv", Chan: 2}
+	mk := func(waiters ...Instr) *Program {
+		n := len(waiters)
+		main := []Instr{}
+		for i := range waiters {
+			main = append(main, goI(i+2))
+		}
+		main = append(main, yield, yield, Instr{Kind: "close", Chan: 1})
+		for range waiters {
+			main = append(main, wait)
+		}
+		p := &Program{Caps: []int{0, n}, Prog: [][]Instr{main}}
+		for _, w := range waiters {
+			p.Prog = append(p.Prog, []Instr{w, token})
+		}
+		for len(p.Prog) < maxNG {
+			p.Prog = append(p.Prog, []Instr{})
+		}
+		return p
+	}
+	return []*Program{mk(sel, recv), mk(recv, sel), mk(sel, recv, recv), mk(recv, sel, recv), mk(selD, recv), mk(sel, sel, recv)}
 }
